@@ -13,16 +13,20 @@ GROUPS = [
           defines=["WIDTH=2"], unwind=11, checks=CH, timeout=900, bounded="command 'dd d dd' with symbolic decimal digits; both byte orders"),
 ]
 GROUPS += [g for g in _c05.GROUPS if "Memory.write16" in g.name or "Memory.write1[" in g.name or "MemoryPage" in g.name]
-GROUPS.append(Group(name="C19/naken_util.main[bounded]", unity="C19/u_utilmain.cpp", entry="h_utilmain",
+GROUPS.append(Group(name="C19/naken_util.main.set_pc[bounded]", unity="C19/u_utilmain.cpp", entry="h_utilmain",
                     functions=[("main", "main/naken_util.cpp", "harness, bounded (T11 drops the unused #include <string>)"), ("String::*", "common/String.cpp", "real callee")],
-                    defines=["VERIF_PURE_BODY=;"], unwind=16, checks=CH, timeout=1500, tier="thorough",
-                    bounded="command lines of 1..3 arguments taken from a 9-word vocabulary (the options that take a value, -bin, a CPU name, two numbers, a file name); standard input at end of file"))
+                    defines=["VERIF_PURE_BODY=;"], unwind=16, checks=CH, timeout=1500, mem_gb=19, tier="thorough",
+                    bounded="command lines of 1..3 words from a 9-word vocabulary (-set_pc, -address, -break_io, -bin, a CPU name, an unknown option, two numbers, a file name); standard input at end of file"))
+GROUPS.append(Group(name="C19/naken_util.main.last_option[bounded]", unity="C19/u_utilmain.cpp", entry="h_utilmain",
+                    functions=[("main", "main/naken_util.cpp", "harness, bounded")],
+                    defines=["VERIF_PURE_BODY=;", "LASTOPT"], unwind=16, checks=CH, timeout=1500, mem_gb=19, tier="thorough",
+                    bounded="command lines of 1..2 words that end in an option taking a value (-set_pc, -address, -break_io, -disasm_range, -sim_serial) with the value missing"))
 LEVEL = "other"
 EXPLANATION = ("Bounded model checking (CBMC, complete unwinding for the stated string lengths) of the real command parsers and write commands, plus the bounded Memory "
                "byte-map/16-bit round-trip checks shared with C05; strings are unbounded in the tool, so no unbounded proof is claimed.")
 TRUSTED = ["Memory replaced by a write log in the command harnesses; its byte-map behaviour is the separate bounded Memory obligation"]
 MANIFEST = {
-    "text": "Bounded stand-in: number parsing (decimal, 0x, h) for every string of <= 8 characters never reads past the terminator and yields the positional value; write/write16 place the k-th value at address*bytes_per_address + k*width in the CPU's byte order; Memory 16-bit round trip on the real page list.",
-    "note": "print*, disasm ranges, set/run and option parsing in main/naken_util.cpp (not compilable by the front end) are not covered.",
+    "text": "Bounded stand-in: number parsing (decimal, 0x, h) for every string of <= 8 characters never reads past the terminator and yields the positional value; write/write16 place the k-th value at address*bytes_per_address + k*width in the CPU's byte order; Memory 16-bit round trip on the real page list; main()'s command-line handling up to the first prompt (-set_pc survives the reset, no argv entry past argc is used) for command lines of up to 3 words (thorough tier).",
+    "note": "disasm ranges, set/run and the interactive command interpreter of main/naken_util.cpp are not covered; print8/16/32 termination and buffer safety are under C17.",
     "technique": "bounded model checking (CBMC, complete unwinding) of core/UtilContext.cpp parsers and write commands - labelled bounded, not proved",
 }
